@@ -8,6 +8,7 @@ import model_lc as ml
 import model_msgs as mm
 import rules_lc as R
 import rules_hh as HHm
+import names as NM
 
 TINFO = "messages::TrampolineInfo"
 
@@ -130,7 +131,7 @@ def _handler_level_gate(C):
                 return any(x[0] == "field" and x[1] == "payment_hash" and x[2] == "messages::Htlc" for x in walk(e))
 
             def ih(e):
-                return any(x[0] == "call" and x[1] == "lightning_invoice::Bolt11Invoice::payment_hash" and any(y[0] == "call" and y[4].t.get("rty") == "htlc_manager::HtlcCheckResult" for y in walk(x)) for x in walk(e))
+                return any(x[0] == "call" and x[1] == "lightning_invoice::Bolt11Invoice::payment_hash" and any(y[0] == "call" and y[4].t.get("rty") in NM.of(C.F).check for y in walk(x)) for x in walk(e))
             a, c2 = sides
             if (hh(a) and ih(c2) and not ih(a) and not hh(c2)) or (hh(c2) and ih(a) and not ih(c2) and not hh(a)):
                 lossy = _lossy(sides)
@@ -189,7 +190,7 @@ def k_key_is_invoice_hash(C, rep, rid):
         for c in H.entry:
             e = strip(X.operand(b, c.args[1]))
             ok = all(a[0] == "call" and a[1] == "lightning_invoice::Bolt11Invoice::payment_hash" and any(x[0] == "field" and x[1] == "invoice" and x[2] == TINFO for x in walk(a))
-                     and any(x[0] == "call" and x[4].t.get("rty") == "htlc_manager::HtlcCheckResult" for x in walk(a)) for a in alts(e))
+                     and any(x[0] == "call" and x[4].t.get("rty") in NM.of(C.F).check for x in walk(a)) for a in alts(e))
             rep.ob(rid, ok, H.fn, "table entry key = classified invoice's payment hash", where=c.loc, how=show(e)[:100], detail="" if ok else "payments are grouped by %s" % show(e)[:120])
         # the TrampolineInfo handed to the lifecycle and stored in the entry is that same classified value
     L = C.L
@@ -215,7 +216,7 @@ def k_key_is_invoice_hash(C, rep, rid):
                 rep.ob(rid, okb, L.fn, "PaymentRequest.bolt11 = trampoline.bolt11", where=p.loc, how=show(bo)[:60], detail="" if okb else "the invoice string paid is %s" % show(bo)[:100])
     for bb2 in [L.body] + [x for rf in A.resolve_fns for x in F.group(rf)]:
         for c in bb2.calls:
-            if c.name in ("std::collections::HashMap::get", "std::collections::HashMap::remove", "std::collections::HashMap::get_mut") and HHm.PSTATE in c.full:
+            if c.name in ("std::collections::HashMap::get", "std::collections::HashMap::remove", "std::collections::HashMap::get_mut") and NM.PS() in c.full:
                 e = strip(X.operand(bb2, c.args[1]))
                 e = mm.expand_params(F, X, e, depth=2) if bb2 is not L.body else e
                 ok = all(a[0] == "call" and a[1] == "lightning_invoice::Bolt11Invoice::payment_hash" and any(x[0] == "field" and x[1] == "invoice" and x[2] == TINFO for x in walk(a)) for a in alts(e))
@@ -229,7 +230,7 @@ def k_key_is_invoice_hash(C, rep, rid):
         for i, a in enumerate(call.args):
             if TINFO in rb.local_ty(a["pl"]["l"]) if a["k"] in ("copy", "move") else False:
                 e = strip(X.operand(rb, a))
-                ok = any(x[0] == "call" and x[4].t.get("rty") == "htlc_manager::HtlcCheckResult" for x in walk(e))
+                ok = any(x[0] == "call" and x[4].t.get("rty") in NM.of(C.F).check for x in walk(e))
                 rep.ob(rid, ok, F.root_of(rb), "lifecycle gets the classified TrampolineInfo", where=call.loc, how=show(e)[:80], detail="" if ok else "lifecycle is started with %s" % show(e)[:100])
 
 
@@ -515,7 +516,7 @@ def r_self_route_hint(C, rep, rid):
         okk = _has_call(e, "lightning_invoice::Bolt11Invoice::route_hints") and not any(x[0] == "call" and x[1].startswith("std::iter::Iterator::") and x[1].split("::")[-1] in ("take", "skip", "rev", "step_by", "filter") for x in walk(e))
         rep.ob(rid, okk, fn, "search runs over invoice.route_hints()", where=c.loc, how=show(e)[:80], detail="" if okk else "search runs over %s" % show(e)[:100])
     # Trampoline construction only via (no hint) or (allowed)
-    tr = [(bi, s) for bi in sorted(cb.reachable) for s in cb.blocks[bi]["s"] if s["k"] == "assign" and s["rv"]["k"] == "agg" and s["rv"].get("adt") == "htlc_manager::HtlcCheckResult" and s["rv"]["variant"] == "Trampoline"]
+    tr = [(bi, s) for bi in sorted(cb.reachable) for s in cb.blocks[bi]["s"] if s["k"] == "assign" and s["rv"]["k"] == "agg" and HHm._is_check_agg(H, s["rv"]) and s["rv"]["variant"] == H.tramp_variant]
     rep.anchor(rid, "Trampoline classification site", len(tr), 1, fn=fn)
     if not its or not tr:
         return
@@ -542,8 +543,8 @@ def r_self_route_hint(C, rep, rid):
                detail="" if ok else "an HTLC whose invoice has the local node as last hop of a hint is accepted although self route hints are disallowed")
     # the disallowed edge returns a Fail
     r = cb.reach([t_false]) - cb.reach([t_true])
-    resp = [(bi, s) for bi in sorted(r) for s in cb.blocks[bi]["s"] if s["k"] == "assign" and s["rv"]["k"] == "agg" and s["rv"].get("adt") == "htlc_manager::HtlcCheckResult"]
-    ok = len(resp) == 1 and resp[0][1]["rv"]["variant"] == "Response"
+    resp = [(bi, s) for bi in sorted(r) for s in cb.blocks[bi]["s"] if s["k"] == "assign" and s["rv"]["k"] == "agg" and HHm._is_check_agg(H, s["rv"])]
+    ok = len(resp) == 1 and resp[0][1]["rv"]["variant"] == H.resp_variant
     if ok:
         vals = mm.eval_response(F, X, strip(X.operand(cb, resp[0][1]["rv"]["ops"][0])), C.enc_table)
         ok = all(v[0] == "Fail" for v in vals)
